@@ -111,8 +111,10 @@ def run(tier, seed):
     res.cov["samples"] = obs[:3]
     res.cov["trusted_base"] = TRUSTED_COMMON + [
         "Print Assumptions lists Coq's primitive int63/float operations (kernel primitives, not axioms of this development)",
-        "C07_refuse_sound_std_partial: standard model of binary64 rounding with u = 2^-53 and exact int->f64 conversion below 2^53 is an assumed instantiation; "
-        "stdlib real-number axioms ClassicalDedekindReals.sig_forall_dec, FunctionalExtensionality.functional_extensionality_dep",
+        "C07_refuse_sound (unbounded, through Flocq 4.1.0): axioms declared by Coq's standard library only -- FloatAxioms (mul_spec, div_spec, ltb_spec, of_uint63_spec, "
+        "Prim2SF_valid, SF2Prim_Prim2SF, Prim2SF_SF2Prim), Uint63 (of_to_Z and the add/sub/lsl/lsr/lor/ltb/leb/eqb specs), ClassicalDedekindReals.sig_forall_dec, "
+        "ClassicalDedekindReals.sig_not_dec, Classical_Prop.classic, FunctionalExtensionality.functional_extensionality_dep; the Flocq library itself (compiled, installed with the system)",
+        "rustc's f64 division/multiplication/comparison and `as f64` are IEEE-754 binary64 round-to-nearest-even (checked by the differential runs, not proved)",
         "model evaluated inside coqc (vm_compute), no extraction on this path"]
     for v in viol[:3]:
         res.violation("world", v)
